@@ -52,6 +52,7 @@ class Result:
         self.inconclusive: Optional[str] = None
         self.trace: List[str] = []
         self.error: Optional[str] = None
+        self.history: list = []
 
 
 class Run(Oracles):
@@ -129,6 +130,7 @@ class Run(Oracles):
             finally:
                 asyncio.set_event_loop(None)
                 loop.close()
+        res.history = self.history()
         res.violations = [v.as_dict() for v in w.viol]
         res.labels = sorted(w.labels)
         res.stats = dict(w.stats)
@@ -136,6 +138,22 @@ class Run(Oracles):
         res.inconclusive = w.inconclusive
         res.trace = w.trace
         return res
+
+    def history(self) -> list:
+        """Observable per-invocation history (for the differential oracle of C12)."""
+        out = []
+        for pm in self.w.pools:
+            started = sorted((t for t in pm.tasks.values() if t.started), key=lambda t: t.start_seq)
+            rank = {id(t): i for i, t in enumerate(started)}
+            for rm in pm.reqs:
+                for c in rm.calls:
+                    t = c.task
+                    faulty = c.raised or (t is not None and t.exc is not None)
+                    out.append({"pool": pm.idx, "rid": rm.rid, "idx": c.idx, "tid": None if t is None else t.tid,
+                                "rank": None if t is None else rank.get(id(t)), "how": None if t is None else t.how,
+                                "cancels": 0 if t is None else t.cancels_seen, "ecb": 0 if t is None else t.ecb_n,
+                                "ccb": 0 if t is None else t.ccb_n, "faulty": faulty, "raised_at_call": c.raised})
+        return out
 
     def drain(self, loop: asyncio.AbstractEventLoop) -> None:
         w = self.w
